@@ -261,9 +261,12 @@ impl Interp {
 		if self.background {
 			return Ok(())
 		}
+		// enact_logs waits (for a cleanup thread that does not exist here) only while MORE than
+		// `limit` consumed log files await clean_logs, checked after each enacted record
 		let limit = if self.cfg.sync_data { 4 } else { 16 };
 		let dirty = self.pipeline().3;
-		if dirty + need > limit {
+		let _ = need;
+		if dirty > limit {
 			self.labels.insert("auto-clean");
 			if let Err(e) = self.db().clean_logs() {
 				if !self.fault_armed {
@@ -275,8 +278,10 @@ impl Interp {
 		Ok(())
 	}
 
+	/// Dropping the handle never waits for log cleanup (shutdown is requested first), so nothing
+	/// has to be done before a close; kept as an explicit no-op for the call sites.
 	pub fn ensure_room_for_close(&mut self) -> Res<()> {
-		self.ensure_cleanup_room(3)
+		Ok(())
 	}
 
 	fn stage_cleaned(&mut self) {
@@ -738,7 +743,9 @@ impl Interp {
 				if self.stages.in_flight() > 0 {
 					self.labels.insert("reopen-in-flight");
 				}
-				self.ensure_cleanup_room(3)?;
+				if self.pipeline().3 > 4 {
+					self.labels.insert("drop-with-more-than-4-dirty-logs");
+				}
 				self.close();
 				if let StepOut::Faulted(s) = self.open()? {
 					return Ok(StepOut::Faulted(s))
